@@ -48,11 +48,20 @@ arithmetic behind the lower bounds (C35_rt_*: next due time >= start + period fo
 readings, spacing / k-th tick bound along any chain of not-early ticks); not tied to the code.
 (c') half of the interval / timer(d, p) cases of (c) hand the scheduler to the FACTORY
 (reactivex.interval(p, scheduler=s)) and subscribe without one.
+(f) ORACLE ONLY (harness/timer_late.py): reactivex.timer(duetime, period) whose ticks run LATE by 0 / less than /
+exactly / more than one / several periods (each -/+ eps): absolute datetime start times in the past, negative
+relative due times (float / int / timedelta), other actions and observers that scheduler.sleep past one or more
+ticks; VirtualTimeScheduler / TestScheduler / HistoricalScheduler, driven by start() / advance_to / advance_by.
+Demanded (from "emit 0, 1, 2, ... once per period"): the values in order; no value before its due time; for
+period > 0 never two values at one instant, value k+1 not earlier than one period after a lower bound of value
+k's due time, and -- while subscribed -- not later than one period after value k was delivered unless the
+scheduler was observed to be busy.  The choice of the next due time after a late tick is left open in between.
 NOT covered: mainloop / asyncio schedulers; real thread scheduling delays and the wake-up
 latency of Event.wait / Timer in exact-time claims (the K3 family only demands lower bounds)
 -- the claim is partial."""
 import hashlib
 import json
+import random
 import time
 
 import eldrv as E
@@ -61,6 +70,7 @@ import k3_time as kt
 import lib
 import ntpdrv
 import rtdrv as R
+import timer_late as TL
 import vt
 
 IMPORTS = "Base.Prelude Core.VTime Core.CatchSched Core.Periodic"
@@ -404,6 +414,9 @@ def run(chk):
     # ---- (e) schedule_periodic on the real-time schedulers under K3 with time (oracle only) ----
     rt_periodic_family(chk, tier, rng, hist, nontrivial)
 
+    # ---- (f) timer(duetime, period) whose ticks run late (oracle only) ----
+    timer_late_family(chk, tier, rng, hist, nontrivial)
+
     failures.sort(key=lambda f: f[0])
     seen = set()
     for size, sig, rep in failures:
@@ -446,7 +459,18 @@ def run(chk):
                        "dispose() and schedule_periodic after dispose(); every (case, scheduler) under all schedules with "
                        "<= 2 (thorough 3) preemptions (capped), seeded random and fine-grained schedules.  non-trivial = "
                        "distinct cases with at least two calls/emissions ((e): distinct (case, log) with two ticks and a "
-                       "preemption)")
+                       "preemption); (f) ORACLE ONLY: reactivex.timer(duetime, period) with ticks that run late: 3 "
+                       "virtual-time schedulers x periods {1 ms, 0.25 s, 1 s, 3.000001 s, 5 s, 10 s, 50 s} x eps {1 us, "
+                       "1 ms, period/4} x lateness {k*period -eps/+0/+eps for k = 0,1,2,3,5; 0.5, 1.5, 2.33 periods; not "
+                       "late by 0.5 / 3 periods} produced by an absolute datetime start time in the past, by a negative "
+                       "relative due time (float / int / timedelta), by another action that sleeps until then (started "
+                       "1 us / half a period / a period / two periods before the tick or at its very instant; a second "
+                       "sleeper later on) or by an observer that sleeps 0.5 .. 6 periods; float / int / timedelta "
+                       "periods, period <= 0 with take(n); scheduler to the factory or to subscribe; subscribed directly "
+                       "or from inside a scheduled action; int or float clock values; take(n) or not; driven by start() "
+                       "(ended by a scheduled dispose / take), one advance_to or several advance_by steps; plus seeded "
+                       "random combinations.  (f) non-trivial = distinct cases with >= 2 values of which one was "
+                       "delivered after its due time")
     chk.cov["input_distribution"] = hist
     chk.cov["not_covered"] = ("mainloop / asyncio schedulers: periodic scheduling there is not driven here; "
                               "EventLoopScheduler / TimeoutScheduler: oracle on explored interleavings only (no model, "
@@ -466,7 +490,9 @@ def run(chk):
                        "executor: the loop thread and the main thread alternate through a baton)",
                        "harness/k3.py + harness/k3_time.py (baton controller, controlled Condition / Event / Timer / "
                        "Thread / executor / clock; self-test on every run), harness/eldrv.py + harness/rtdrv.py (driver "
-                       "of the periodic ops, periodic_oracle)"],
+                       "of the periodic ops, periodic_oracle)",
+                       "harness/timer_late.py (driver + oracle of family (f); the busy intervals the oracle reasons "
+                       "with are the ones the sleeping actions / observers logged themselves)"],
         assumptions=["virtual-time schedulers: the only way an action takes virtual time is scheduler.sleep",
                      "new-thread loop: zero latency -- the clock moves only inside disposed.wait (by exactly the "
                      "timeout, or to the instant of the waking dispose()) and inside the action; dispose() is atomic "
@@ -474,7 +500,12 @@ def run(chk):
                      "period > 0 for the closed form (period 0 or negative keeps advance_to busy forever by design)",
                      "K3 family (e): preemption only at the yield points of the chosen granularity; a timer / a timed "
                      "wait never returns before its timeout on the scheduler clock; periods > 0; the start of a tick is "
-                     "stamped with the clock the scheduler read last before calling the action"])
+                     "stamped with the clock the scheduler read last before calling the action",
+                     "family (f): READING of 'once per period' for a timer whose tick ran late (the text does not spell "
+                     "out a catch-up policy): missed ticks are not delivered in a burst -- consecutive due times are at "
+                     "least a period apart and the next tick is never due at the instant of the current one (period > "
+                     "0) -- and the next tick is due at most one period after the current one was delivered; any due "
+                     "time in between is accepted"])
 
 
 # ---------------------------------------------------------------------------------------------------------
@@ -659,6 +690,61 @@ def rt_periodic_family(chk, tier, rng, hist, nontrivial):
     hist["rt_periodic_under_k3"] = rth
 
 
+# ---------------------------------------------------------------------------------------------------------
+# (f) reactivex.timer(duetime, period) with ticks that run late; cases / driver / oracle in harness/timer_late.py
+# ---------------------------------------------------------------------------------------------------------
+
+TL_EXPECTED = ("values 0, 1, 2, ... in order; value 0 not before the due time; for period > 0: never two values at "
+               "one instant, value k+1 not earlier than one period after (a lower bound of) value k's due time, and "
+               "delivered no later than one period after value k unless the scheduler was busy / the subscription "
+               "disposed; nothing after dispose")
+
+
+def timer_late_family(chk, tier, rng, hist, nontrivial):
+    t_start = time.time()
+    # own generator: section (e) is time-budgeted, so the state of chk.rng after it depends on the machine load
+    rng = random.Random(f"C35-timer-late-{chk.seed}")
+    cases = TL.systematic_cases(rng, tier)
+    cases += [TL.random_case(rng) for _ in range(6000 if tier == "quick" else 120000)]
+    th = {"cases": len(cases), "family": {}, "world": {}, "due_form": {}, "period_form": {}, "drive": {}, "via": {},
+          "with_take": 0, "with_dispose": 0, "subscribed_inside_an_action": 0, "int_clock_values": 0,
+          "period_le_0": 0, "values": 0}
+    tot = {}
+    fails = {}
+    for case in cases:
+        r = TL.run_case(case)
+        chk.cov["evaluations"] += 1
+        bad, st = TL.oracle(case, r)
+        for k, v in st.items():
+            tot[k] = tot.get(k, 0) + v
+        for key, val in (("family", case.get("family", "?")), ("world", case["world"]),
+                         ("due_form", case["due"]["form"]), ("period_form", case["period"]["form"]),
+                         ("drive", case["drive"][0]), ("via", case["via"])):
+            th[key][val] = th[key].get(val, 0) + 1
+        th["with_take"] += case.get("take") is not None
+        th["with_dispose"] += case.get("dispose_at") is not None
+        th["subscribed_inside_an_action"] += case.get("sub_at", 0) > 0
+        th["int_clock_values"] += bool(case.get("iwp"))
+        th["period_le_0"] += case["period"]["us"] <= 0
+        th["values"] += st["ticks"]
+        if st["ticks"] >= 2 and st["late_ticks"] >= 1:
+            nontrivial.add("tl:" + json.dumps({k: v for k, v in case.items() if k != "family"}, sort_keys=True))
+        for sig, msg in bad:
+            sz = TL.size_of(case)
+            if sig not in fails or sz < fails[sig][0]:
+                fails[sig] = (sz, {"driver": TL.DRIVER, "case": case, "what_failed": msg,
+                                   "log": r["log"], "error": r["error"], "expected_text": TL_EXPECTED})
+    for sig, (sz, rep) in fails.items():
+        chk.violation(sig, rep, size=sz)
+    th["ticks_late_wrt_present_policy"] = {k: tot.get(k, 0) for k in (
+        "late_ticks", "late_less", "late_exactly_one_period", "late_more", "late_several")}
+    th["ticks_coinciding_with_the_present_catch_up_policy"] = tot.get("ref_policy_ticks", 0)
+    th["ticks_elsewhere_in_the_accepted_interval"] = tot.get("not_ref_policy_ticks", 0)
+    th["ticks_shown_to_run_at_their_due_time"] = tot.get("sharpened", 0)
+    th["seconds"] = round(time.time() - t_start, 1)
+    hist["timer_with_late_ticks"] = th
+
+
 def run_observable(world, c0, d, p, t_rel, disp, sleeps=None, via="subscribe"):
     """subscribe reactivex.timer(d, p) (interval when d == p) on the real scheduler at clock c0,
     optionally dispose the subscription at c0+disp, advance to c0+t_rel.  Returns the emissions
@@ -751,6 +837,20 @@ def replay(chk, path):
         for e in r.log:
             print("   ", e)
         bad = [b for b in rt_oracle(d["case"], r) if not b[0].startswith("NOTE ")]
+        for sig, msg in bad:
+            print("FAILS", sig, msg)
+        if bad:
+            print(f"VIOLATION property=C35 replay={path}")
+        return 1 if bad else 0
+    if d.get("driver") == TL.DRIVER:
+        r = TL.run_case(d["case"])
+        print("case", json.dumps(d["case"]))
+        print("log:")
+        for e in r["log"]:
+            print("   ", e)
+        if r["error"]:
+            print("error", r["error"])
+        bad, _ = TL.oracle(d["case"], r)
         for sig, msg in bad:
             print("FAILS", sig, msg)
         if bad:
